@@ -274,6 +274,20 @@ def check(case, ctx):
             ch.noise_var = float(noise)
         ctx.label("noise_type=" + ntype)
     model = Model(Nr, Nt, NtE, big)
+    if ext and case.get("second_object"):
+        # another channel object of the same layout lives in the same
+        # program (a second cluster / drop) and is evaluated first: what is
+        # reported for ``ch`` is about the channel of ``ch``
+        ctx.label("second_channel_object_alive")
+        other = multiuser.MultiUserChannelMatrixExtInt()
+        other.set_channel_seed(int(case["chan_seed"]) + 17)
+        other.randomize(*args)
+        other.noise_var = 0.5
+        other.calc_cov_matrix_extint_plus_noise(*(
+            [] if pe_arg is None else [float(pe_arg)]))
+        other.calc_Q(0, _obj([np.ones((Nt[j], 1), dtype=complex)
+                              for j in range(K)]),
+                     *([] if pe_arg is None else [float(pe_arg)]))
 
     # ---- precoders / filters ---------------------------------------------
     frs = np.random.RandomState(int(case["f_seed"]))
@@ -465,6 +479,7 @@ def _strategy(tier):
             noise_var=draw(st.one_of(st.none(), st.just(0.0),
                                      loguniform(-4, 1), loguniform(-4, 1))),
             reused_object=draw(st.sampled_from([False, False, True])),
+            second_object=draw(st.sampled_from([False, False, True])),
             noise_type=draw(st.sampled_from(["float", "float", "float", "int",
                                              "np.int64", "np.float32",
                                              "np.float64"])),
